@@ -130,3 +130,305 @@ LEMMAS['G4'] = dict(jobs=jobs_G4, run=run_G4, units=['argon2_ref_core', 'argon2_
     doc='segment walk on reduced instances: the sequence (previous, reference, current, with_xor) of compression calls equals the RFC 9106 walk for every (pass, slice); pass 0 overwrites, later passes XOR; SIMD running state carries exactly the previous block; reference index == RFC index mapping',
     bound='lane_length = 4*segment_length, segment_length in {2,3} (quick) / {2,3,4,6}, passes 2 (quick) / 3, arbitrary memory contents', symbolic='all memory words (so every pseudo-random J1)', stubs=['fill_block := recorder producing fresh block symbols (G1/G2 decide the compression itself)'],
     outside='the full 262144-block instance as one run')
+
+# ------------------------------------------------------------------------------------------ G5 initial hash H0, G6 first blocks, B6 H' (blake2b_long)
+CTX_FIELDS = ('out', 'outlen', 'pwd', 'pwdlen', 'salt', 'saltlen', 'secret', 'secretlen', 'ad', 'adlen', 't_cost', 'm_cost', 'lanes', 'threads', 'version', 'allocate_cbk', 'free_cbk', 'flags')
+
+def _le32(v): return [z3.Extract(8 * k + 7, 8 * k, bv(v, 32)) for k in range(4)]
+def _same(a, b):
+    if is_c(a) and is_c(b): return a == b
+    if is_c(a) or is_c(b): return None
+    return True if a.eq(b) else None
+
+def run_G5(ctx, case):
+    """rxa2_initial_hash: the byte stream fed to Blake2b-64 is RFC 9106 3.2 H0 input, in order, for symbolic parameters and field lengths"""
+    q = Q(30); mod = Module(ctx['ll']['argon2_core']); it = Interp(mod)
+    tc = resolve(NamedT('struct.Argon2_Context', mod)); co = tc.layout()[0]
+    c = it.mem.alloc(tc.size(), 'context'); F = {}
+    LEN = case['len']
+    for nm in ('pwd', 'salt', 'secret', 'ad'):
+        it.mem.alloc(max(LEN[nm], 1), nm + '_buf')
+        for k in range(LEN[nm]): it.mem.store(Ptr(nm + '_buf', k), z3.BitVec('%s%d' % (nm, k), 8), 1)
+    for k_, nm in enumerate(CTX_FIELDS):
+        w = 8 if nm in ('out', 'pwd', 'salt', 'secret', 'ad', 'allocate_cbk', 'free_cbk') else 4
+        if nm in ('pwd', 'salt', 'secret', 'ad'): v = Ptr(nm + '_buf', 0) if not case['null'].get(nm) else Ptr(None, 0)
+        elif w == 8: v = Ptr(None, 0)
+        else: v = z3.BitVec('ctx_' + nm, 32)
+        F[nm] = v; it.mem.store(Ptr('context', co[k_]), v, w)
+    ytype = z3.BitVec('type', 32); bh = it.mem.alloc(72, 'blockhash')
+    for k in range(72): it.mem.store(Ptr('blockhash', k), z3.BitVec('bh_stale%d' % k, 8), 1)
+    ev = []
+    def h_init(s, a): ev.append(('init', a[0], a[1])); return 0
+    def h_update(s, a):
+        S, p, n = a; ev.append(('update', S, p, n)); return 0
+    def h_final(s, a):
+        S, out, n = a; ev.append(('final', S, out, n))
+        if is_c(n):
+            for k in range(n): s.mem.store(Ptr(out.obj, out.off + k), z3.BitVec('H0_%d' % k, 8), 1)
+        return 0
+    it.hooks[mod.find('blake2b_init')] = h_init; it.hooks[mod.find('blake2b_update')] = h_update; it.hooks[mod.find('blake2b_final')] = h_final
+    # the 4-byte value buffer is reused: read its content at call time
+    stream = []
+    def h_update2(s, a):
+        S, p, n = a
+        if isinstance(p, Ptr) and p.obj is not None and not p.obj.endswith('_buf') and is_c(n): stream.append(('bytes', [s.mem.load(Ptr(p.obj, p.off + k), 1) for k in range(n)]))
+        else: stream.append(('buf', p, n))
+        return h_update(s, a)
+    it.hooks[mod.find('blake2b_update')] = h_update2
+    it.call(mod.find('rxa2_initial_hash'), [bh, c, ytype])
+    def chk(cnd, what):
+        q.n += 1; q.unsat += bool(cnd); q.sat += (not cnd)
+        if not cnd: q.failed.append(('rxa2_initial_hash %s: %s' % (case['name'], what), {}))
+    chk(len(ev) >= 2 and ev[0][0] == 'init' and is_c(ev[0][2]) and ev[0][2] == 64, 'H0 is a 64-byte Blake2b (blake2b_init(S, 64) first)')
+    chk(ev[-1][0] == 'final' and isinstance(ev[-1][2], Ptr) and ev[-1][2].obj == 'blockhash' and ev[-1][2].off == 0 and ev[-1][3] == 64, 'digest written to blockhash[0..64)')
+    chk(all(e[1].obj == ev[0][1].obj for e in ev), 'one hashing state throughout')
+    # RFC 9106 3.2: H0 = H^(64)(LE32(p) || LE32(T) || LE32(m) || LE32(t) || LE32(v) || LE32(y) || LE32(len(P)) || P || LE32(len(S)) || S || LE32(len(K)) || K || LE32(len(X)) || X)
+    exp = [('le32', F['lanes']), ('le32', F['outlen']), ('le32', F['m_cost']), ('le32', F['t_cost']), ('le32', F['version']), ('le32', ytype)]
+    for nm in ('pwd', 'salt', 'secret', 'ad'):
+        exp.append(('le32', F[nm + 'len']))
+        if not case['null'].get(nm): exp.append(('buf', nm))
+    chk(len(stream) == len(exp), 'number of update calls %d == %d fields of RFC 9106 3.2' % (len(stream), len(exp)))
+    for k, (e, g) in enumerate(zip(exp, stream)):
+        if e[0] == 'le32':
+            ok = g[0] == 'bytes' and len(g[1]) == 4
+            if ok:
+                for b_, x in zip(_le32(e[1]), g[1]): q.prove_eq([], x, b_, 'rxa2_initial_hash %s: field %d byte == LE32 of the RFC field' % (case['name'], k), 8)
+            else: chk(False, 'field %d is not a 4-byte little-endian value' % k)
+        else:
+            nm = e[1]; ok = g[0] == 'buf' and isinstance(g[1], Ptr) and g[1].obj == nm + '_buf' and g[1].off == 0
+            chk(ok, 'field %d is the %s array from its first byte' % (k, nm))
+            if ok: q.prove_eq([], g[2], z3.ZeroExt(32, bv(F[nm + 'len'], 32)), 'rxa2_initial_hash %s: %s hashed with its full length' % (case['name'], nm), 64)
+    return result('G5', case['name'], q, paths=1, detail='%d blake2b_update calls == RFC 9106 3.2 H0 field sequence' % len(stream))
+
+def jobs_G5(ctx):
+    J = [dict(name='RandomX shape (key, salt; no secret, no associated data)', len=dict(pwd=5, salt=8, secret=0, ad=0), null=dict(secret=True, ad=True)),
+         dict(name='all four arrays present', len=dict(pwd=3, salt=8, secret=2, ad=1), null={}),
+         dict(name='empty key passed as a non-null pointer', len=dict(pwd=0, salt=8, secret=0, ad=0), null=dict(secret=True, ad=True))]
+    return J
+
+def run_G6(ctx, case):
+    """rxa2_fill_first_blocks: B[l][0] = H'^(1024)(H0 || LE32(0) || LE32(l)), B[l][1] = H'^(1024)(H0 || LE32(1) || LE32(l)), loaded as 128 LE words"""
+    q = Q(30); mod = Module(ctx['ll']['argon2_core']); it = Interp(mod); lanes = case['lanes']; LL = case['lane_length']
+    ti = resolve(NamedT('struct.Argon2_instance_t', mod)); io = ti.layout()[0]
+    inst = it.mem.alloc(ti.size(), 'inst'); NB = lanes * LL; memo = it.mem.alloc(NB * 1024, 'memory')
+    for k in range(0, NB * 1024, 8): it.mem.store(Ptr('memory', k), z3.BitVec('stale%d' % k, 64), 8)
+    for k_, v in enumerate((memo, 0x13, 3, NB, LL // 4, LL, lanes, 1, 0, 0)): it.mem.store(Ptr('inst', io[k_]), v, 8 if k_ == 0 else 4)
+    bh = it.mem.alloc(72, 'blockhash'); H0 = [z3.BitVec('H0_%d' % k, 8) for k in range(64)]
+    for k in range(64): it.mem.store(Ptr('blockhash', k), H0[k], 1)
+    for k in range(64, 72): it.mem.store(Ptr('blockhash', k), z3.BitVec('bh_stale%d' % k, 8), 1)
+    calls = []
+    def h_long(s, a):
+        out, outlen, inp, inlen = a; n = len(calls)
+        content = [s.mem.load(Ptr(inp.obj, inp.off + k), 1) for k in range(inlen)] if is_c(inlen) and inlen <= 128 else None
+        new = [z3.BitVec('Hp%d_%d' % (n, k), 8) for k in range(1024)]
+        if is_c(outlen) and outlen == 1024:
+            for k in range(1024): s.mem.store(Ptr(out.obj, out.off + k), new[k], 1)
+        calls.append(dict(outlen=outlen, inlen=inlen, content=content, new=new)); return 0
+    it.hooks[mod.find('blake2b_long')] = h_long
+    it.call(mod.find('rxa2_fill_first_blocks'), [bh, inst])
+    def chk(cnd, what):
+        q.n += 1; q.unsat += bool(cnd); q.sat += (not cnd)
+        if not cnd: q.failed.append(('rxa2_fill_first_blocks(lanes=%d, lane_length=%d): %s' % (lanes, LL, what), {}))
+    chk(len(calls) == 2 * lanes, "two H' calls per lane (%d calls)" % len(calls))
+    for n, cl in enumerate(calls[:2 * lanes]):
+        l, j = n // 2, n % 2
+        chk(cl['outlen'] == 1024 and cl['inlen'] == 72 and cl['content'] is not None, "call %d: H'^(1024) over the 72-byte H0||counter||lane string" % n)
+        if cl['content'] is None: continue
+        want = H0 + [j, 0, 0, 0] + [l, 0, 0, 0]
+        for k in range(72):
+            g = cl['content'][k]; w = want[k]
+            ok = (is_c(g) and is_c(w) and g == w) or (not is_c(g) and not is_c(w) and g.eq(w))
+            if not ok: chk(False, 'call %d: input byte %d is not H0 || LE32(%d) || LE32(%d)' % (n, k, j, l)); break
+        else: chk(True, 'input')
+        blk = l * LL + j; bad = None
+        for w_ in range(128):
+            got = it.mem.load(Ptr('memory', 1024 * blk + 8 * w_), 8); exp = z3.Concat(*[cl['new'][8 * w_ + k] for k in reversed(range(8))])
+            if not (not is_c(got) and z3.simplify(got).eq(z3.simplify(exp))):
+                if q.prove_eq([], got, exp, 'first blocks: B[%d][%d] word %d = little-endian load of H\' output' % (l, j, w_), 64)[0] != 'unsat': bad = w_; break
+        chk(bad is None, 'B[%d][%d] (memory block %d) holds the 1024 output bytes as 128 little-endian words' % (l, j, blk))
+    # nothing else in memory changes
+    untouched = True
+    for blk in range(NB):
+        if any(blk == l * LL + j for l in range(lanes) for j in range(2)): continue
+        v = it.mem.load(Ptr('memory', 1024 * blk), 8)
+        if is_c(v) or not v.eq(z3.BitVec('stale%d' % (1024 * blk), 64)): untouched = False
+    chk(untouched, 'no other block is written')
+    return result('G6', 'lanes=%d lane_length=%d' % (lanes, LL), q, paths=1)
+
+def run_B6(ctx, case):
+    """blake2b_long == RFC 9106 3.3 H'^(T): T <= 64: H^T(LE32(T)||A); else V1 = H^64(LE32(T)||A), V_i = H^64(V_{i-1}), V_{r+1} = H^(T-32r)(V_r), output W_1..W_r || V_{r+1}"""
+    q = Q(30); mod = Module(ctx['ll']['blake2b_ni_long']); it = Interp(mod); T = case['T']; N = case['inlen']
+    inp = it.mem.alloc(max(N, 1), 'A'); A = [z3.BitVec('A%d' % k, 8) for k in range(N)]
+    for k in range(N): it.mem.store(Ptr('A', k), A[k], 1)
+    out = it.mem.alloc(T + 64, 'out'); O = [z3.BitVec('out_stale%d' % k, 8) for k in range(T + 64)]
+    for k in range(T + 64): it.mem.store(Ptr('out', k), O[k], 1)
+    ev = []; nfresh = [0]
+    def fresh(n):
+        nfresh[0] += 1; return [z3.BitVec('V%d_%d' % (nfresh[0], k), 8) for k in range(n)]
+    def h_init(s, a): ev.append(['stream', a[1], [], None]); return 0
+    def h_update(s, a):
+        S, p, n = a
+        if not is_c(n): raise Exception('symbolic update length')
+        ev[-1][2] += [s.mem.load(Ptr(p.obj, p.off + k), 1) for k in range(n)]; return 0
+    def h_final(s, a):
+        S, o, n = a; v = fresh(n); ev[-1][3] = (n, v)
+        for k in range(n): s.mem.store(Ptr(o.obj, o.off + k), v[k], 1)
+        return 0
+    def h_oneshot(s, a):
+        o, olen, i_, ilen, key, klen = a; v = fresh(olen)
+        ev.append(['oneshot', olen, [s.mem.load(Ptr(i_.obj, i_.off + k), 1) for k in range(ilen)], (olen, v), (key, klen)])
+        for k in range(olen): s.mem.store(Ptr(o.obj, o.off + k), v[k], 1)
+        return 0
+    it.hooks[mod.find('blake2b_init')] = h_init; it.hooks[mod.find('blake2b_update')] = h_update; it.hooks[mod.find('blake2b_final')] = h_final; it.hooks[mod.find('blake2b')] = h_oneshot
+    r = it.call(mod.find('blake2b_long'), [out, T, inp, N]); tag = "blake2b_long(T=%d, |A|=%d)" % (T, N)
+    def chk(cnd, what):
+        q.n += 1; q.unsat += bool(cnd); q.sat += (not cnd)
+        if not cnd: q.failed.append(('%s: %s' % (tag, what), {}))
+    def same_bytes(xs, ys): return len(xs) == len(ys) and all((is_c(x) and is_c(y) and x == y) or (not is_c(x) and not is_c(y) and x.eq(y)) for x, y in zip(xs, ys))
+    chk(is_c(r) and r == 0, 'returns 0')
+    first_in = [T & 255, (T >> 8) & 255, (T >> 16) & 255, (T >> 24) & 255] + A
+    now = [it.mem.load(Ptr('out', k), 1) for k in range(T + 64)]
+    if T <= 64:
+        chk(len(ev) == 1 and ev[0][0] == 'stream' and ev[0][1] == T and ev[0][3] and ev[0][3][0] == T, 'one Blake2b with digest length T')
+        if len(ev) == 1 and ev[0][3]:
+            chk(same_bytes(ev[0][2], first_in), 'hashed string is LE32(T) || A'); chk(same_bytes(now[:T], ev[0][3][1]), 'output is the digest')
+    else:
+        rr = (T + 31) // 32 - 2
+        chk(len(ev) == rr + 1, '%d hash invocations (r+1 with r = ceil(T/32)-2 = %d)' % (len(ev), rr))
+        if len(ev) == rr + 1:
+            chk(ev[0][0] == 'stream' and ev[0][1] == 64 and same_bytes(ev[0][2], first_in) and ev[0][3][0] == 64, 'V1 = H^64(LE32(T) || A)')
+            prev = ev[0][3][1]; outexp = list(prev[:32])
+            for i in range(1, rr + 1):
+                e = ev[i]; last = i == rr; want = (T - 32 * rr) if last else 64
+                chk(e[0] == 'oneshot' and e[1] == want and same_bytes(e[2], prev) and is_c(e[4][1]) and e[4][1] == 0, 'V%d = H^%d(V%d), unkeyed' % (i + 1, want, i))
+                prev = e[3][1]; outexp += list(prev if last else prev[:32])
+            chk(len(outexp) == T and same_bytes(now[:T], outexp), "output = W1 || ... || Wr || V(r+1)")
+    chk(same_bytes(now[T:], O[T:]), 'nothing is written beyond T bytes')
+    return result('B6', 'T=%d inlen=%d' % (T, N), q, paths=1)
+
+def jobs_B6(ctx):
+    Ts = [1, 32, 63, 64, 65, 96, 97, 128, 1024] if ctx['tier'] == 'quick' else list(range(1, 200)) + [1023, 1024, 1025]
+    return [dict(T=t, inlen=n) for t in Ts for n in ((72,) if ctx['tier'] == 'quick' else (0, 1, 72))]
+
+UNITS['blake2b_ni_long'] = dict(src='src/blake2/blake2b.c', inline=False)
+LEMMAS['G5'] = dict(jobs=jobs_G5, run=run_G5, units=['argon2_core'], functions=['rxa2_initial_hash'],
+    doc='the initial hash H0: the sequence of bytes fed to a 64-byte Blake2b is exactly RFC 9106 3.2 (p, T, m, t, v, y, then each of P, S, K, X preceded by its LE32 length), digest to blockhash[0..64)',
+    bound='arrays of fixed small lengths per job (key 0,3,5 bytes; salt 8); all 32-bit parameters and the type symbolic; NULL secret/ad as RandomX passes them', symbolic='lanes, outlen, m_cost, t_cost, version, type, all length fields, array contents', stubs=['blake2b_init/update/final := call recorders (B2-B4)'])
+LEMMAS['G6'] = dict(jobs=lambda ctx: [dict(lanes=1, lane_length=8), dict(lanes=2, lane_length=8)], run=run_G6, units=['argon2_core'], functions=['rxa2_fill_first_blocks', 'load_block', 'store32'],
+    doc="first two blocks of every lane: B[l][j] = H'^(1024)(H0 || LE32(j) || LE32(l)) stored as 128 little-endian words at memory[l*lane_length + j]; nothing else written",
+    bound='lanes 1 (RandomX) and 2, lane length 8; H0 and stale memory symbolic', symbolic='H0, stale blockhash tail, stale memory', stubs=["blake2b_long := fresh output bytes, arguments recorded (B6)"])
+LEMMAS['B6'] = dict(jobs=jobs_B6, run=run_B6, units=['blake2b_ni_long'], functions=['blake2b_long'],
+    doc="variable-length hash H' of RFC 9106 3.3: invocation chain and output composition", bound='T in {1,32,63,64,65,96,97,128,1024} (quick) / 1..199, 1023..1025; |A| = 72 (quick) / 0,1,72', symbolic='input bytes, stale output buffer',
+    stubs=['blake2b_init/update/final and one-shot blake2b := recorders producing fresh digests (B2-B4)'])
+
+# ------------------------------------------------------------------------------------------ G3: initCache = Argon2d with the parameters of table 7.1.1, then the program list
+UNITS['dataset'] = dict(link=[dict(src='src/dataset.cpp', inline=False)])
+def _cfg_salt():
+    import re, os
+    from engine import build
+    txt = open(os.path.join(build.REPO, 'src', 'configuration.h')).read(); m = re.search(r'#define\s+RANDOMX_ARGON_SALT\s+"((?:[^"\\]|\\.)*)"', txt)
+    return list(bytes(m.group(1), 'latin1').decode('unicode_escape').encode('latin1'))
+
+def run_G3(ctx, case):
+    """the real initCache(cache, key, keySize): Argon2 context/instance == specification table 7.1.1 for a symbolic key and key size; initialise then fill on the
+    cache memory; SuperscalarHash programs generated from BlakeGenerator(key) in order; every IMUL_RCP immediate replaced by the index of its reciprocal"""
+    from lemmas import life
+    from engine import cxxlib
+    from spec import params as SP
+    from lemmas.sshash import kind_numbers
+    q = Q(30); mod = Module(ctx['ll']['dataset']); npaths = [0]; KN = kind_numbers(); RCP = KN['IMUL_RCP']
+    tcx = resolve(NamedT('struct.Argon2_Context', mod)); cxo = tcx.layout()[0]; ti = resolve(NamedT('struct.Argon2_instance_t', mod)); io = ti.layout()[0]
+    tc = resolve(NamedT('struct.randomx_cache', mod)); co = tc.layout()[0]; tp = resolve(NamedT('class.randomx::SuperscalarProgram', mod)); po = tp.layout()[0]
+    keysize = z3.BitVec('keySize', 64); NP = SP.CACHE_ACCESSES
+    ops = [z3.BitVec('prog%d_opcode' % k, 8) for k in range(2)]; imms = [z3.BitVec('prog%d_imm32' % k, 32) for k in range(2)]
+    rcpuf = z3.Function('rcp', z3.BitVecSort(32), z3.BitVecSort(64))
+    def one(fk):
+        it = Interp(mod); it.fork = fk; H = life.Heap(it, fail=False); cxxlib.install(it, H); ev = []
+        fk['pc'] += [z3.ULT(keysize, 1 << 32)]
+        cache = it.mem.alloc(tc.size(), 'cache')
+        for k in range(0, tc.size(), 8): it.mem.store(Ptr('cache', k), 0, 8)
+        it.mem.alloc(64, 'cachemem'); it.mem.store(Ptr('cache', co[0]), Ptr('cachemem', 0), 8); it.mem.store(Ptr('cache', co[8]), Ptr('theimpl', 0), 8)
+        for k in range(3): it.mem.store(Ptr('cache', co[6] + 8 * k), Ptr(None, 0), 8)
+        it.mem.alloc(64, 'key')
+        def snap(s, p, t, offs, names):
+            out = {}
+            for k_, nm in enumerate(names):
+                sz = resolve(t.els[k_]).size(); out[nm] = s.mem.load(Ptr(p.obj, p.off + offs[k_]), sz)
+            return out
+        INST = ('memory', 'version', 'passes', 'memory_blocks', 'segment_length', 'lane_length', 'lanes', 'threads', 'type', 'print_internals', 'context_ptr', 'impl')
+        def h_validate(s, a): ev.append(('validate', snap(s, a[0], tcx, cxo, CTX_FIELDS))); return 0
+        def h_init(s, a):
+            c = snap(s, a[1], tcx, cxo, CTX_FIELDS); salt = c['salt']
+            c['salt_bytes'] = [s.mem.load(Ptr(salt.obj, salt.off + k), 1) for k in range(8)] if isinstance(salt, Ptr) and salt.obj else None
+            ev.append(('initialize', snap(s, a[0], ti, io, INST), c, a[0])); return 0
+        def h_fill(s, a): ev.append(('fill', snap(s, a[0], ti, io, INST), a[0])); return 0
+        def h_gen(s, a): ev.append(('Blake2Generator', a[1], a[2], a[3] if len(a) > 3 else None, a[0])); return None
+        ngen = [0]
+        def h_ss(s, a):
+            prog, gen = a; k = ngen[0]; ngen[0] += 1; ev.append(('generateSuperscalar', prog, gen))
+            n = 1 if k < 2 else 0
+            s.mem.store(Ptr(prog.obj, prog.off + po[1]), n, 4)
+            if n:
+                s.mem.store(Ptr(prog.obj, prog.off), ops[k], 1); s.mem.store(Ptr(prog.obj, prog.off + 4), imms[k], 4)
+            return None
+        it.hooks['randomx_argon2_validate_inputs'] = h_validate; it.hooks['randomx_argon2_initialize'] = h_init; it.hooks['randomx_argon2_fill_memory_blocks'] = h_fill
+        it.hooks['_ZN7randomx15Blake2GeneratorC1EPKvmi'] = h_gen; it.hooks['_ZN7randomx19generateSuperscalarERNS_18SuperscalarProgramERNS_15Blake2GeneratorE'] = h_ss
+        it.hooks['randomx_reciprocal'] = lambda s, a: rcpuf(bv(a[0], 32))
+        it.hooks['__assert_fail'] = lambda s, a: (_ for _ in ()).throw(Exception('assert_fail reached'))
+        it.call('_ZN7randomx9initCacheEP13randomx_cachePKvm', [cache, Ptr('key', 0), keysize]); npaths[0] += 1; pc = fk['pc']
+        def chk(c, what):
+            q.n += 1; q.unsat += bool(c); q.sat += (not c)
+            if not c: q.failed.append(('initCache: ' + what, {}))
+        names = [e[0] for e in ev]
+        chk(names[:3] == ['validate', 'initialize', 'fill'] or names[:2] == ['initialize', 'fill'], 'Argon2 initialise then fill (call sequence %s)' % names[:4])
+        ini = [e for e in ev if e[0] == 'initialize']; fil = [e for e in ev if e[0] == 'fill']
+        if len(ini) == 1 and len(fil) == 1:
+            I, C = ini[0][1], ini[0][2]
+            chk(isinstance(C['pwd'], Ptr) and C['pwd'].obj == 'key' and C['pwd'].off == 0, 'password = the key K')
+            q.prove_eq(pc, C['pwdlen'], z3.Extract(31, 0, keysize), 'initCache: password length = key size', 32)
+            salt = _cfg_salt()
+            chk(C['salt_bytes'] is not None and all(is_c(b) for b in C['salt_bytes']) and C['salt_bytes'] == salt[:8] and C['saltlen'] == len(salt), 'salt = RANDOMX_ARGON_SALT (%d bytes)' % len(salt))
+            chk(C['secretlen'] == 0 and C['adlen'] == 0 and C['outlen'] == 0, 'no secret, no associated data, output size 0')
+            chk(C['t_cost'] == SP.ARGON_ITER and C['m_cost'] == SP.ARGON_MEMORY and C['lanes'] == SP.P['RANDOMX_ARGON_LANES'], 'iterations %s, memory %s KiB, parallelism %s = table 7.1.1' % (C['t_cost'], C['m_cost'], C['lanes']))
+            chk(C['version'] == 0x13, 'Argon2 version 0x13')
+            lanes = SP.P['RANDOMX_ARGON_LANES']; seg = SP.ARGON_MEMORY // (4 * lanes)
+            chk(I['type'] == 0, 'type Argon2d (0)')
+            chk(I['version'] == 0x13 and I['passes'] == SP.ARGON_ITER and I['memory_blocks'] == SP.ARGON_MEMORY and I['segment_length'] == seg and I['lane_length'] == 4 * seg and I['lanes'] == lanes and I['threads'] >= 1,
+                'instance geometry: %s blocks, segment %s, lane %s, lanes %s' % (I['memory_blocks'], I['segment_length'], I['lane_length'], I['lanes']))
+            chk(isinstance(I['memory'], Ptr) and I['memory'].obj == 'cachemem' and I['memory'].off == 0, 'fills the cache memory from its first byte')
+            chk(fil[0][2].obj == ini[0][3].obj and all(_same(fil[0][1][k], I[k]) for k in ('version', 'passes', 'memory_blocks', 'segment_length', 'lane_length', 'lanes', 'type')) and _same(fil[0][1]['memory'].obj == 'cachemem', True), 'fill runs on the initialised instance')
+        else: chk(False, 'exactly one initialise and one fill')
+        g = [e for e in ev if e[0] == 'Blake2Generator']
+        chk(len(g) == 1 and isinstance(g[0][1], Ptr) and g[0][1].obj == 'key' and g[0][1].off == 0, 'BlakeGenerator seeded with the key')
+        if len(g) == 1:
+            q.prove_eq(pc, g[0][2], keysize, 'initCache: BlakeGenerator gets the whole key size', 64)
+            chk(g[0][3] is None or (is_c(g[0][3]) and g[0][3] == 0), 'nonce 0')
+        ss = [e for e in ev if e[0] == 'generateSuperscalar']
+        chk(len(ss) == NP and all(e[1].obj == 'cache' and e[1].off == co[5] + k * tp.size() for k, e in enumerate(ss)) and (not g or all(e[2].obj == g[0][4].obj for e in ss)),
+            '%d programs generated in order into cache->programs[] from the one generator' % NP)
+        # reciprocal replacement
+        vb = it.mem.load(Ptr('cache', co[6]), 8); ve = it.mem.load(Ptr('cache', co[6] + 8), 8)
+        nr = ((ve.off - vb.off) // 8) if isinstance(vb, Ptr) and isinstance(ve, Ptr) and vb.obj else 0
+        isr = [z3.simplify(z3.And(*pc + [ops[k] == RCP])) for k in range(2)]
+        sol = z3.Solver(); sol.add(*pc); idx = 0
+        for k in range(2):
+            sol.push(); sol.add(ops[k] == RCP); r1 = sol.check(); sol.pop(); sol.push(); sol.add(ops[k] != RCP); r0 = sol.check(); sol.pop(); q.n += 2
+            imm_now = it.mem.load(Ptr('cache', co[5] + k * tp.size() + 4), 4)
+            if r1 == z3.sat and r0 == z3.unsat:
+                q.prove_eq(pc, imm_now, idx, 'initCache: program %d IMUL_RCP immediate := index %d of its reciprocal' % (k, idx), 32)
+                if idx < nr: q.prove_eq(pc, it.mem.load(Ptr(vb.obj, vb.off + 8 * idx), 8), rcpuf(imms[k]), 'initCache: reciprocalCache[%d] = reciprocal(imm32 of program %d)' % (idx, k), 64)
+                else: chk(False, 'reciprocal %d missing from the cache vector' % idx)
+                idx += 1
+            elif r0 == z3.sat and r1 == z3.unsat:
+                q.prove_eq(pc, imm_now, imms[k], 'initCache: program %d non-reciprocal instruction keeps its immediate' % k, 32)
+            else: chk(False, 'path does not decide whether instruction %d is IMUL_RCP' % k)
+        chk(nr == idx, 'reciprocal cache holds exactly the %d reciprocals of this path (stale entries cleared)' % idx)
+    res, nq = explore(one, limit=16); q.n += nq
+    chk_paths = npaths[0] == 4; q.n += 1; q.unsat += chk_paths; q.sat += (not chk_paths)
+    if not chk_paths: q.failed.append(('initCache: %d paths explored, expected 4 (two instructions x is/is not IMUL_RCP)' % npaths[0], {}))
+    return result('G3', 'initCache', q, paths=npaths[0])
+
+LEMMAS['G3'] = dict(jobs=lambda ctx: ['initCache'], run=run_G3, units=['dataset'], functions=['randomx::initCache', 'std::vector<uint64_t>::clear/push_back/size', 'Instruction::getImm32/setImm32', 'SuperscalarProgram::getSize/operator()'],
+    doc='cache construction = Argon2d memory fill with the parameters of specification table 7.1.1 (password = key, salt, iterations, memory, lanes, version 0x13, type d, no secret/associated data), on the cache memory, followed by the eight SuperscalarHash programs from BlakeGenerator(key); every IMUL_RCP immediate becomes the index of its reciprocal in a freshly cleared vector',
+    bound='key pointer and 64-bit key size symbolic; program list: two one-instruction programs with symbolic opcode/immediate, six empty ones', symbolic='key size, instruction opcodes and immediates',
+    stubs=['randomx_argon2_initialize / fill_memory_blocks / validate_inputs := recorders (G5, G6, G4)', 'Blake2Generator ctor, generateSuperscalar := recorders (S5, S1)', 'randomx_reciprocal := uninterpreted rcp (R1)', 'operator new := ghost heap'])
